@@ -501,6 +501,11 @@ pub fn c06_case(seed: u64, idx: u64) -> CaseOut {
     f.extend_from_slice(&w);
     f.extend_from_slice(&suf);
     let label = format!("{wl} pre={} suf={} S=({slabel})", pre.len(), suf.len());
+    if f.len() <= 8000 {
+        if let Some(rq) = scan_request(&f) {
+            out.requests.push(rq);
+        }
+    }
     let replay = format!("file {}", hex(&f));
     let (res, tape) = match guarded(|| vh::expand_with_tape(&f)) {
         Run::Done(x) => x,
